@@ -93,7 +93,7 @@ theorem C19_symbol_answer (c : Config) (st : State) (h : build c = .ok st) (n : 
     (∀ a, respond st (.fileContainingSymbol n) = .ok a →
       ∃ f, a = .fileDescriptor f ∧ f ∈ c.files ∧ Declares f n) ∧
     (∀ e, respond st (.fileContainingSymbol n) = .error e →
-      e.1 = Code.notFound ∧ ∀ f ∈ c.files, Unconflicted c.files f → ¬ Declares f n) := by
+      e = Code.notFound ∧ ∀ f ∈ c.files, Unconflicted c.files f → ¬ Declares f n) := by
   simp only [respond]
   cases hl : assoc n st.symbols with
   | some f =>
@@ -114,7 +114,7 @@ theorem C19_file_answer (c : Config) (st : State) (h : build c = .ok st) (nm : N
       ∃ g, a = .fileDescriptor g ∧ g ∈ c.files ∧ g.name = some nm ∧
         ∀ f ∈ c.files, f.name = some nm → Unconflicted c.files f → g = f) ∧
     (∀ e, respond st (.fileByFilename nm) = .error e →
-      e.1 = Code.notFound ∧ ∀ f ∈ c.files, f.name ≠ some nm) := by
+      e = Code.notFound ∧ ∀ f ∈ c.files, f.name ≠ some nm) := by
   simp only [respond]
   cases hl : assoc nm st.files with
   | some g =>
@@ -135,9 +135,9 @@ theorem C19_file_answer (c : Config) (st : State) (h : build c = .ok st) (nm : N
 registered file has, are answered with that status (which ends the stream). -/
 theorem C19_unknown_not_found (c : Config) (st : State) (h : build c = .ok st) :
     (∀ n, (∀ f ∈ c.files, ¬ Declares f n) →
-      ∃ m, respond st (.fileContainingSymbol n) = .error (Code.notFound, m)) ∧
+      respond st (.fileContainingSymbol n) = .error Code.notFound) ∧
     (∀ nm, (∀ f ∈ c.files, f.name ≠ some nm) →
-      ∃ m, respond st (.fileByFilename nm) = .error (Code.notFound, m)) := by
+      respond st (.fileByFilename nm) = .error Code.notFound) := by
   constructor
   · intro n hno
     simp only [respond]
@@ -145,14 +145,14 @@ theorem C19_unknown_not_found (c : Config) (st : State) (h : build c = .ok st) :
     | some f =>
       obtain ⟨h1, h2, -⟩ := C19_symbol_sound c st h n f hl
       exact absurd h2 (hno f h1)
-    | none => exact ⟨_, rfl⟩
+    | none => rfl
   · intro nm hno
     simp only [respond]
     cases hl : assoc nm st.files with
     | some g =>
       obtain ⟨h1, h2⟩ := C19_file_sound c st h nm g hl
       exact absurd h2 (hno g h1)
-    | none => exact ⟨_, rfl⟩
+    | none => rfl
 
 /-- The service list when `with_service_name` was never called: exactly the services declared by
 the served files — as a list, in the order they are examined, and as a set. -/
@@ -229,7 +229,7 @@ theorem C19_stream_answers (st : State) (reqs : List Request) :
       ∃ r, reqs[i]? = some r ∧ respond st r.messageRequest = .ok a.answer ∧
         a.validHost = r.host ∧ a.originalRequest = r) ∧
     ((runStream st reqs).2 = none → (runStream st reqs).1.length = reqs.length) ∧
-    (∀ e : Code × Bytes, (runStream st reqs).2 = some e →
+    (∀ e : Code, (runStream st reqs).2 = some e →
       ∃ r : Request, reqs[(runStream st reqs).1.length]? = some r ∧
         respond st r.messageRequest = .error e) := by
   induction reqs with
@@ -284,6 +284,121 @@ theorem C19_versions_agree (c : Config) (o1 o1a : List File) (s1 s1a : State)
   obtain ⟨b1, b2⟩ := C19_own_descriptor_conservative c o1a s0 s1a h0 h1a
   exact ⟨fun n x y => (a1 n x).trans (b1 n y).symm, fun nm x y => (a2 nm x).trans (b2 nm y).symm⟩
 
+/-- … and about the service list: adding an own descriptor set `o` only *appends* to it, and
+only services that a file of `o` declares (nothing at all when service names were chosen). -/
+theorem C19_own_descriptor_conservative_services (c : Config) (o : List File) (st0 st1 : State)
+    (h0 : build { c with own := none } = .ok st0) (h1 : build { c with own := some o } = .ok st1) :
+    ∃ x, st1.serviceNames = st0.serviceNames ++ x ∧ (c.chosen.isSome = true → x = []) ∧
+      ∀ n ∈ x, ∃ g ∈ o, DeclaresService g n := by
+  have b0 := (build_ok h0).2
+  have b1 := (build_ok h1).2
+  rw [procFiles_with_own, addFiles_append] at b1
+  have hinit : initState { c with own := some o } = initState { c with own := none } := rfl
+  have hch : ({ c with own := some o } : Config).chosen = ({ c with own := none } : Config).chosen := rfl
+  rw [hinit, hch, b0] at b1
+  simp only at b1
+  have hs := addFiles_services (build_good h0) b1
+  refine ⟨_, hs, ?_, ?_⟩
+  · intro hsome
+    have : ({ c with own := none } : Config).chosen.isNone = false := by
+      show c.chosen.isNone = false
+      cases hc : c.chosen with
+      | none => simp [hc] at hsome
+      | some l => rfl
+    simp [this]
+  · intro n hn
+    split at hn
+    · obtain ⟨g, hg, hd⟩ := List.mem_flatMap.mp hn
+      exact ⟨g, List.mem_of_find?_eq_some (mem_servedFrom.mp hg).2, mem_serviceNames_iff.mp hd⟩
+    · simp at hn
+
+/-- Requests whose answer must not depend on the version: every kind of request — the absent
+request, extension look-ups, extension-number listings, symbol and file look-ups, ListServices —
+except a symbol that an own descriptor declares, a file name an own descriptor has, and
+ListServices when no service names were chosen (then the own services are listed too, see
+`C19_versions_agree_services`). -/
+def OutsideOwn (chosen : Option (List Name)) (o1 o1a : List File) : Req → Prop
+  | .fileContainingSymbol n => (∀ g ∈ o1, ¬ Declares g n) ∧ (∀ g ∈ o1a, ¬ Declares g n)
+  | .fileByFilename nm => (∀ g ∈ o1, g.name ≠ some nm) ∧ (∀ g ∈ o1a, g.name ≠ some nm)
+  | .listServices _ => chosen.isSome = true
+  | _ => True
+
+/-- The two versions agree on *every request kind* outside their own descriptors
+(`file_containing_extension` and the absent request fail alike, `all_extension_numbers_of_type`
+is answered alike — as the code has them — and symbol / file look-ups and the chosen service list
+are the same answers). -/
+theorem C19_versions_agree_every_request (c : Config) (o1 o1a : List File) (s1 s1a : State)
+    (hw : ∀ f ∈ ({ c with own := none } : Config).files, File.wellNamed f = true)
+    (h1 : build { c with own := some o1 } = .ok s1) (h1a : build { c with own := some o1a } = .ok s1a)
+    (r : Req) (hr : OutsideOwn c.chosen o1 o1a r) : respond s1 r = respond s1a r := by
+  have hd : ({ c with own := none } : Config).decodable = true := by
+    rw [← decodable_with_own c o1]; exact (build_ok h1).1
+  obtain ⟨s0, h0⟩ := C19_build_succeeds { c with own := none } hd hw
+  obtain ⟨a1, a2⟩ := C19_versions_agree c o1 o1a s1 s1a hw h1 h1a
+  cases r with
+  | none => rfl
+  | fileContainingExtension t k => rfl
+  | allExtensionNumbersOfType t => rfl
+  | fileContainingSymbol n => exact a1 n hr.1 hr.2
+  | fileByFilename nm => exact a2 nm hr.1 hr.2
+  | listServices t =>
+    obtain ⟨x, hx, hx0, -⟩ := C19_own_descriptor_conservative_services c o1 s0 s1 h0 h1
+    obtain ⟨y, hy, hy0, -⟩ := C19_own_descriptor_conservative_services c o1a s0 s1a h0 h1a
+    simp only [respond, hx, hy, hx0 hr, hy0 hr]
+
+/-- ListServices in general: the two versions list a common part (what the service lists
+without any own descriptor) followed by services that their own descriptor declares. -/
+theorem C19_versions_agree_services (c : Config) (o1 o1a : List File) (s1 s1a : State)
+    (hw : ∀ f ∈ ({ c with own := none } : Config).files, File.wellNamed f = true)
+    (h1 : build { c with own := some o1 } = .ok s1) (h1a : build { c with own := some o1a } = .ok s1a)
+    (t : Name) :
+    ∃ base x1 x1a, respond s1 (.listServices t) = .ok (.services (base ++ x1)) ∧
+      respond s1a (.listServices t) = .ok (.services (base ++ x1a)) ∧
+      (∀ n ∈ x1, ∃ g ∈ o1, DeclaresService g n) ∧ (∀ n ∈ x1a, ∃ g ∈ o1a, DeclaresService g n) := by
+  have hd : ({ c with own := none } : Config).decodable = true := by
+    rw [← decodable_with_own c o1]; exact (build_ok h1).1
+  obtain ⟨s0, h0⟩ := C19_build_succeeds { c with own := none } hd hw
+  obtain ⟨x, hx, -, hxd⟩ := C19_own_descriptor_conservative_services c o1 s0 s1 h0 h1
+  obtain ⟨y, hy, -, hyd⟩ := C19_own_descriptor_conservative_services c o1a s0 s1a h0 h1a
+  exact ⟨s0.serviceNames, x, y, by simp only [respond, hx], by simp only [respond, hy], hxd, hyd⟩
+
+/-- Whole calls: a request stream that stays outside the own descriptors gets the same answers,
+and the same final status, from both versions. -/
+theorem C19_versions_agree_streams (c : Config) (o1 o1a : List File) (s1 s1a : State)
+    (hw : ∀ f ∈ ({ c with own := none } : Config).files, File.wellNamed f = true)
+    (h1 : build { c with own := some o1 } = .ok s1) (h1a : build { c with own := some o1a } = .ok s1a)
+    (reqs : List Request) (hr : ∀ r ∈ reqs, OutsideOwn c.chosen o1 o1a r.messageRequest) :
+    runStream s1 reqs = runStream s1a reqs := by
+  induction reqs with
+  | nil => rfl
+  | cons r rs ih =>
+    have e := C19_versions_agree_every_request c o1 o1a s1 s1a hw h1 h1a r.messageRequest
+      (hr r List.mem_cons_self)
+    simp only [runStream, e, ih (fun r' h' => hr r' (List.mem_cons_of_mem _ h'))]
+
+/-- … and what a call answers to a prefix of its requests does not depend on what follows: the
+answers to `pre ++ rest` start with the answers to `pre`, and if `pre` already failed, that is
+the whole call.  (So the previous theorem applies to every stream up to the first request that
+touches an own descriptor — which is what the correspondence run compares.) -/
+theorem C19_stream_prefix (st : State) (pre rest : List Request) :
+    (∀ e, (runStream st pre).2 = some e → runStream st (pre ++ rest) = runStream st pre) ∧
+    ((runStream st pre).2 = none →
+      runStream st (pre ++ rest) = ((runStream st pre).1 ++ (runStream st rest).1, (runStream st rest).2)) := by
+  induction pre with
+  | nil => simp [runStream]
+  | cons r rs ih =>
+    simp only [List.cons_append, runStream]
+    cases hr : respond st r.messageRequest with
+    | error e => simp
+    | ok a =>
+      simp only
+      constructor
+      · intro e he
+        rw [ih.1 e he]
+      · intro hn
+        rw [ih.2 hn]
+        rfl
+
 /-- "… retrievable as a descriptor that decodes to what was registered", at the level of bytes:
 the bytes answered for a skeleton descriptor `f` (one that carries nothing beyond the names the
 model records, `extra = 0`; `ReflWire.encFile` is tied to prost's encoder by the correspondence
@@ -320,6 +435,11 @@ private def exFile : File :=
 /-- same file name, different content -/
 private def exFile' : File := { exFile with package := some (b ['o', 't']) }
 
+/-- another file: `z.p`, package `zz`, one message -/
+private def exFile'' : File :=
+  { name := some (b ['z', '.', 'p']), package := some (b ['z', 'z']), extra := 0
+    messages := .cons (.mk (some (b ['Q'])) .nil [] [] []) .nil, enums := [], services := [] }
+
 private def exCfg : Config :=
   { regs := [.encoded (some [exFile]), .decoded [exFile', exFile']], chosen := none, own := none }
 
@@ -341,6 +461,23 @@ example : Unconflicted [exFile, exFile] exFile := by decide
 -- a skeleton descriptor of depth 2: the hypotheses of `C19_answer_bytes_decode` hold
 example : exFile.extra = 0 ∧ Spec.ReflWire.MsgList.depth exFile.messages ≤ 100 := by decide
 example : ¬ Unconflicted exCfg.files exFile := by decide
+
+-- hypotheses of `C19_versions_agree_every_request` / `_streams`: two different own descriptor
+-- sets (`exFile`, `exFile'` in that role), a registered file, both services build; a symbol that
+-- neither own set declares and a file name neither has are `OutsideOwn`, and so is every
+-- extension request
+private def exCfgOwn (o : File) : Config := { regs := [.decoded [exFile'']], chosen := none, own := some [o] }
+example : isOk (build (exCfgOwn exFile)) = true ∧ isOk (build (exCfgOwn exFile')) = true := by decide
+example : OutsideOwn none [exFile] [exFile'] (.fileContainingSymbol (b ['z', 'z', '.', 'Q'])) :=
+  ⟨fun g hg hd => by
+      have : g = exFile := by simpa using hg
+      subst this; have := declares_iff.mpr hd; revert this; decide,
+   fun g hg hd => by
+      have : g = exFile' := by simpa using hg
+      subst this; have := declares_iff.mpr hd; revert this; decide⟩
+example : OutsideOwn none [exFile] [exFile'] (.fileByFilename (b ['z', '.', 'p'])) := by
+  constructor <;> intro g hg <;> simp at hg <;> subst hg <;> decide
+example : OutsideOwn none [exFile] [exFile'] (.fileContainingExtension (b ['x']) 3) := trivial
 
 end Examples
 
